@@ -573,10 +573,11 @@ PROPS["C11"] = dict(
 
 PROPS["C02"] = dict(
     title="Acknowledged mode recovers from any bounded loss, duplication and reordering",
-    module="Cfdp.Props.C02r",
+    module="Cfdp.Props.C02t",
     namespace="Cfdp.Seg",
     theorems=["C02_round_completes", "C02_gaps_answered", "Cfdp.Recv.C02_finishes_when_complete", "Cfdp.Recv.C02_never_waits_complete", "Cfdp.Recv.C02_complete_is_success", "Cfdp.Recv.C02_size_check_passes", "Cfdp.Loop.C02_no_integrity_fault", "Cfdp.Net.C02_two_party_no_integrity_fault", "Cfdp.Loop.C02_recv_completes", "Cfdp.Loop.C02_send_completes", "Cfdp.Net.C02_two_party_completes",
-              "Cfdp.Loop.C02_sender_answers_nak", "Cfdp.Loop.C02_receiver_recovers", "Cfdp.Loop.C02_recovery_round"],
+              "Cfdp.Loop.C02_sender_answers_nak", "Cfdp.Loop.C02_receiver_recovers", "Cfdp.Loop.C02_recovery_round",
+              "Cfdp.Loop.C02_full_round", "Cfdp.Loop.C02_full_round_after_wake"],
     engines=["daemon", "recv", "send", "net"],
     design="§6 C02",
     technique="Lean 4 proofs of the recovery steps over the segment / receiver / sender models; the composition over a lossy link is checked on two real daemons under a virtual clock with bounded fault plans",
@@ -603,6 +604,11 @@ PROPS["C02"] = dict(
                 "it is missing ends Finished / NoError / Complete / Retained (C02_receiver_recovers: induction over the deliveries, completion noticed at the first moment "
                 "the segment list covers the file, a reported delivery stays as reported); composed: when a NAK whose requests contain every missing byte - which is what "
                 "the receiver's own NAKs are, C08_exact - reaches the sender and the link loses none of the answers, the delivery succeeds (C02_recovery_round). "
+                "And the whole round through both models and the link (Props/C02t.lean): the receiver, whose queue lists what is missing - as the NAK timer rebuilds it - and whose NAK "
+                "counter is below its limit, transmits the queue in as many NAK PDUs as it takes, every queued request in one of them (recv_flushes_naks: the send_naks timer "
+                "logic stays below the limit from one NAK to the next at the same instant); all of them reach the sender, where every piece of every request is queued (naks_arrive); "
+                "the sender answers them all; the answers reach the receiver in any order, at any times, with any duplicates: Finished / NoError / Complete / Retained "
+                "(C02_full_round, C02_full_round_after_wake with C08_exact discharging the queue hypothesis; a concrete two-segment transfer with a lost segment is the example). "
                 "PARTIAL: that such a round comes about - the NAK timer fires, the NAK and its answers get through - whenever fewer than `limit` consecutive transmissions "
                 "of any PDU are lost is a statement about the timers of two transaction models, the link and the scheduler; C03 / C17 bound the timers, C08 gives the NAK's "
                 "content, but the composition over a lossy fair schedule is not one theorem here. It is checked on the real code: the daemon engine runs acknowledged transfers between two real daemons with every kind of fault "
@@ -614,5 +620,5 @@ PROPS["C02"] = dict(
           "per-side steps. Non-trivial = a routing line with at least one delivered PDU / a PDU emitted."
           " net engine (300 quick / 3000 thorough two-party histories): one real SendTransaction and one real RecvTransaction joined by a simulated link that delivers only PDUs the other side emitted (in order, lost, duplicated, reordered, as stragglers), random schedules of transmissions, deliveries, timer expiries and user requests at both sides, then a loss-free fair phase on the shared virtual clock until both have ended; every call is answered in lockstep by the Lean sender and receiver models (ops net s / net r), the per-side oracles of the send / recv engines keep running, and two-party oracles are added: C02 recovers / same_outcome (acknowledged mode, losses confined to a zero-time phase, default handlers: both sides report success), C03 net_bounded / net_never_stuck, C04 sender_success_only_after_receiver, C01 two_party_file."),
     assumptions=["bounded faults: fewer than `limit` faults per transfer, delays below the timers (as the property states)"],
-    unproved=["that a loss-free recovery round comes about within the limits under bounded loss (the NAK timer fires, the NAK and its answers get through): checked dynamically by the daemon and net engines; proved are 'delivery implies completion' (receiver and two-party model) and 'one recovery round whose answers are not lost completes the delivery' (C02_recovery_round)"],
+    unproved=["that a recovery round in which nothing is lost comes about within the limits under bounded loss (the NAK timer fires - bounded by C03/C17 -, the NAKs and their answers get through): checked dynamically by the daemon and net engines; proved are 'delivery implies completion' (receiver and two-party model) and 'a recovery round in which nothing is lost completes the delivery', through both models and the link (C02_full_round)"],
 )
